@@ -114,3 +114,7 @@ def run(ctx: common.Ctx):
     recs = tables.pmap(worker, [(ctx.seed * 100003 + k, ctx.tier) for k in range(n)], chunk=4)
     from .c06 import report_sized
     report_sized(ctx, recs)
+    # systematic `x[index]` metadata sweep incl. slices outside the standard's bounds, and the tie to the Lean model
+    # of the reported dims (Model/StaticShape.lean, theorem Ndx.C15.static_getitem_sound)
+    from .. import statictie
+    statictie.run(ctx, ctx.tier == "quick")
